@@ -1,5 +1,6 @@
 """Back ends: z3 (python API, in worker processes) first; `unknown` goes to the cvc5 and z3-4.8 command lines."""
 import os
+import re
 import subprocess
 import tempfile
 import time
@@ -19,11 +20,13 @@ def to_smt2(obl):
     return s.to_smt2()
 
 
-def _solve_z3(smt2, timeout_ms, seed, want_model):
+def _solve_z3(smt2, timeout_ms, seed, want_model, opts=None):
     ctx = z3.Context()
     s = z3.Solver(ctx=ctx)
     s.set('timeout', timeout_ms)
     s.set('random_seed', seed)
+    for k, v in (opts or {}).items():
+        s.set(k, v)
     s.from_string(smt2)
     t0 = time.time()
     r = s.check()
@@ -44,7 +47,12 @@ def _solve_z3(smt2, timeout_ms, seed, want_model):
     return str(r), dt, model, reason
 
 
-def _solve_cli(cmd, smt2, timeout_s, prefix=''):
+_REC_IDX = re.compile(r'\(_ ([A-Za-z_][A-Za-z_0-9.]*) 0\)')
+
+
+def _solve_cli(cmd, smt2, timeout_s, prefix='', fix=False):
+    if fix:
+        smt2 = _REC_IDX.sub(r'\1', smt2)      # z3 prints recursive calls inside define-fun-rec as (_ f 0)
     with tempfile.NamedTemporaryFile('w', suffix='.smt2', delete=False) as f:
         f.write(prefix + smt2)
         path = f.name
@@ -62,32 +70,53 @@ def _solve_cli(cmd, smt2, timeout_s, prefix=''):
     return r, time.time() - t0
 
 
+def _cvc5(smt2, timeout_ms):
+    return _solve_cli(['/usr/bin/cvc5', '--tlimit=%d' % timeout_ms], smt2, timeout_ms / 1000, '(set-logic ALL)\n', fix=True)
+
+
+def _z3old(smt2, timeout_ms):
+    return _solve_cli(['/usr/bin/z3', '-T:%d' % max(1, timeout_ms // 1000)], smt2, timeout_ms / 1000)
+
+
 def work(job):
+    """portfolio: z3 5.1 (short) -> cvc5 -> z3 5.1 with the legacy arithmetic solver -> z3 4.8 -> z3 5.1 (full budget).
+    `unsat` from any back end discharges; `sat` is only taken from a back end that returns a model we can show (z3 api),
+    or from cvc5/z3-4.8 when z3 api stays unknown."""
     name, smt2, timeout_ms, seed, expect_sat, second = job
     res = {'name': name, 'tried': []}
-    r, dt, model, reason = _solve_z3(smt2, timeout_ms, seed, True)
-    res['tried'].append(('z3-%s' % z3.get_version_string(), r, round(dt, 3)))
+    short = min(timeout_ms, 5000)
+    r, dt, model, reason = _solve_z3(smt2, short, seed, True)
+    ver = 'z3-%s' % z3.get_version_string()
+    res['tried'].append((ver, r, round(dt, 3)))
     res.update(result=r, by='z3-api', time=dt, model=model, reason=reason)
     if r == 'unknown' and not expect_sat:
-        r2, dt2 = _solve_cli(['/usr/bin/cvc5', '--tlimit=%d' % timeout_ms], smt2, timeout_ms / 1000, '(set-logic ALL)\n')
-        res['tried'].append(('cvc5', r2, round(dt2, 3)))
-        res['time'] += dt2
-        if r2 == 'unsat':
-            res.update(result=r2, by='cvc5')
+        sat_by = None
+        steps = [('cvc5', lambda: _cvc5(smt2, timeout_ms)),
+                 (ver + '/arith.solver=2', lambda: _solve_z3(smt2, timeout_ms, seed, True, {'arith.solver': 2})),
+                 ('z3-4.8', lambda: _z3old(smt2, timeout_ms)),
+                 (ver + '/full', lambda: _solve_z3(smt2, timeout_ms, seed + 1, True))]
+        for label, fn in steps:
+            out = fn()
+            r2, dt2 = out[0], out[1]
+            res['tried'].append((label, r2, round(dt2, 3)))
+            res['time'] += dt2
+            if r2 == 'unsat':
+                res.update(result='unsat', by=label.split('/')[0] if label.startswith('cvc5') or label == 'z3-4.8' else 'z3-api')
+                break
+            if r2 == 'sat':
+                if len(out) > 2 and out[2] is not None:
+                    res.update(result='sat', by='z3-api', model=out[2])
+                    break
+                sat_by = sat_by or label
         else:
-            r3, dt3 = _solve_cli(['/usr/bin/z3', '-T:%d' % max(1, timeout_ms // 1000)], smt2, timeout_ms / 1000)
-            res['tried'].append(('z3-4.8', r3, round(dt3, 3)))
-            res['time'] += dt3
-            if r3 == 'unsat':
-                res.update(result=r3, by='z3-4.8')
-            elif 'sat' in (r2, r3):
-                res.update(result='sat', by='cvc5' if r2 == 'sat' else 'z3-4.8')
+            if sat_by:
+                res.update(result='sat', by=sat_by)
     elif second and r == 'unsat':
         # thorough tier: an independent solver must agree
-        r2, dt2 = _solve_cli(['/usr/bin/cvc5', '--tlimit=%d' % timeout_ms], smt2, timeout_ms / 1000, '(set-logic ALL)\n')
+        r2, dt2 = _cvc5(smt2, timeout_ms)
         res['tried'].append(('cvc5', r2, round(dt2, 3)))
         if r2 != 'unsat':
-            r3, dt3 = _solve_cli(['/usr/bin/z3', '-T:%d' % max(1, timeout_ms // 1000)], smt2, timeout_ms / 1000)
+            r3, dt3 = _z3old(smt2, timeout_ms)
             res['tried'].append(('z3-4.8', r3, round(dt3, 3)))
             r2 = r3 if r3 in ('sat', 'unsat') else r2
         res['second'] = r2
